@@ -121,7 +121,13 @@ func checkStep(prop string, st *mstate, e mevent, c mcfg, o *stepObs, destroyedS
 			}
 		}
 	}
-	gone := st.apply(e, forwarded, success, user)
+	// an Rwalk with fewer qids than names is a partial walk, whatever the tree looks
+	// like: by the protocol the new fid is not made and the old one does not move
+	completed := success
+	if e.Op == "walk" && success && len(o.Reply.Wqid) < len(e.Names) {
+		completed = false
+	}
+	gone := st.apply(e, forwarded, completed, user)
 	// learn identities
 	for _, cc := range calls {
 		if (cc.Op == "Attach" && e.Op == "attach") || (cc.Op == "AuthInit" && e.Op == "auth") {
@@ -232,6 +238,12 @@ func c04Alphabet(c mcfg) []mevent {
 			}
 		}
 	}
+	// more names than a walk may carry (16): d .. d .. ... d
+	long := []string{}
+	for i := 0; i < 17; i++ {
+		long = append(long, []string{"d", ".."}[i%2])
+	}
+	a = append(a, mevent{Op: "walk", Fid: 0, Newfid: 1, Names: long}, mevent{Op: "walk", Fid: 0, Newfid: 0, Names: long}, mevent{Op: "walk", Fid: 0, Newfid: 2, Names: long[:16]})
 	a = append(a, mevent{Op: "walk", Fid: 0, Newfid: 1, Names: []string{"d"}, ImplErr: true})
 	a = append(a, mevent{Op: "walk", Fid: 0, Newfid: 0, Names: []string{"d"}, ImplErr: true})
 	for _, f := range fids {
